@@ -379,6 +379,7 @@ fn execute(scn: &BScn, property: &str) -> RunOutcome {
     let lone_twin = cfg.lone_other.as_ref().map(|l| build_other_tl(&l.spec));
     let mut lone_had_component_when_it_ended = false;
     let mut late_twin: Option<Twin> = None;
+    let mut late_adopted = false;
     let chain_lookup = |k: Key| -> Option<Key> {
         cfg.chain
             .as_ref()
@@ -931,10 +932,33 @@ fn execute(scn: &BScn, property: &str) -> RunOutcome {
                         if late_touched {
                             out.count("probe.current_key_reassigned_after_animator_arrived_late");
                         }
-                        let lspec: Option<&MergedSpec> = late_twin.as_ref().map(|t| &cfg.tls[t.tl_index]);
-                        if rank(*sa) < rank(*sb) || pa < pb {
+                        // The property does not say whether an animator that arrives after its
+                        // selector takes over the selector's current key. For LATENCY frames
+                        // after its arrival either is accepted (keep what it was built with, or be
+                        // re-targeted once onto the key's timeline); what it says is that from
+                        // then on re-assigning the current key restarts nothing.
+                        let arrived_at = cfg.late_animator.as_ref().map(|l| l.insert_at).unwrap_or(0);
+                        let mut continue_late_checks = true;
+                        if fi <= arrived_at + LATENCY {
+                            if rank(*sa) < rank(*sb) || pa < pb || (*sa != AnimationState::Ended && late_twin.is_some() && *pa != *pb + delta) {
+                                late_adopted = true;
+                                out.count("probe.late_animator_adopted_the_selectors_key");
+                            }
+                            continue_late_checks = false;
+                        }
+                        let lspec: Option<&MergedSpec> = if late_adopted { None } else { late_twin.as_ref().map(|t| &cfg.tls[t.tl_index]) };
+                        if !continue_late_checks {
+                            // (inside the grace window nothing else is claimed)
+                        } else if late_adopted {
+                            // which timeline it plays is the selector's business now; it must not
+                            // restart and must keep time
+                            if rank(*sa) < rank(*sb) || pa < pb {
+                                fail!(p, "reassigning-current-key-restarted", "frame {fi}: entity whose animator arrived after its selector (current key re-assigned before this frame: {late_touched}): the animator went {sb:?} @ {pb:?} -> {sa:?} @ {pa:?} although the key never changed");
+                            }
+                        } else if rank(*sa) < rank(*sb) || pa < pb {
                             fail!(p, "reassigning-current-key-restarted", "frame {fi}: entity whose animator arrived after its selector (current key re-assigned before this frame: {late_touched}): the animator went {sb:?} @ {pb:?} -> {sa:?} @ {pa:?} although the key never changed");
                         }
+                        if continue_late_checks && !late_adopted {
                         let want_pos = if *sa == AnimationState::Ended || lspec.is_none() { *pb } else { *pb + delta };
                         if *pa != want_pos {
                             fail!(p, "position-not-conserved", "frame {fi}: entity whose animator arrived after its selector: position {pb:?} -> {pa:?} over a frame of {delta:?} ending in state {sa:?}");
@@ -961,6 +985,7 @@ fn execute(scn: &BScn, property: &str) -> RunOutcome {
                                     fail!(p, "no-timeline-not-idle", "frame {fi}: entity whose timeline-less animator arrived after its selector: state {sa:?}, component {} -> {}", tbrief(cb), tbrief(ca));
                                 }
                             }
+                        }
                         }
                     }
                     _ => {
